@@ -41,7 +41,7 @@ TFinalize ==
 
 \* a committed ledger transaction: [ok (success?), p (costing parameters, tip, credit), s (fee summary), paid
 \* <<[v, amt]>> (fee_source.paying_vaults), dest [toProposer, toValidatorSet, toBurn, royalties <<[r, amt]>>],
-\* vaults <<[v, before, after, deposits, withdrawals, paid]>>, royaltyVaults <<[v, before, after, deposits, withdrawals, credited]>>]
+\* vaults <<[v, before, after, deposits, withdrawals, paid]>>, contingentVaults (the same for the vaults with a contingent lock only), royaltyVaults <<[v, before, after, deposits, withdrawals, credited]>>]
 SumOf(seq, f(_)) == LET RECURSIVE Go(_)
                         Go(k) == IF k = 0 THEN Zero ELSE LET r == Go(k - 1) IN Add(r, f(seq[k]))
                     IN Go(Len(seq))
@@ -71,6 +71,11 @@ FeeOutcomeOk(e) ==
            x.after = Sub(Add(x.before, x.deposits), x.withdrawals) /\ Leq(x.credited, x.deposits)
      /\ \A k \in DOMAIN e.dest.royalties : \E j \in DOMAIN e.royaltyVaults :
            e.royaltyVaults[j].v = e.dest.royalties[k].v /\ e.royaltyVaults[j].credited = e.dest.royalties[k].amt
+     \* contingent locks pay only on success: a vault from which the fee was locked only contingently pays nothing to a
+     \* transaction that fails - it pays zero and ends with before + deposits - withdrawals
+     /\ \A k \in DOMAIN e.contingentVaults : LET x == e.contingentVaults[k] IN
+           /\ x.after = Sub(Sub(Add(x.before, x.deposits), x.withdrawals), x.paid)
+           /\ (~e.ok => (x.paid = Zero /\ \A j \in DOMAIN e.paid : e.paid[j].v = x.v => e.paid[j].amt = Zero))
      \* limits, loan repaid
      /\ s.execUnits <= e.p.limitE /\ s.finUnits <= e.p.limitF /\ s.badDebt = Zero
 TOutcome == Ev.a = "outcome" /\ FeeOutcomeOk(Ev) /\ UNCHANGED <<p, fr>>
